@@ -8,11 +8,11 @@ hold those strings (`visitor.go`: `convertMap`, edit application on the way out)
 assembles its own string from that map.  The model below is the same bottom-up reduction written as a structural
 recursion: one function per node kind, with the same helpers
 
-* `joinC`  = `join` (printer.go:114): drops empty strings, then `strings.Join`;
-* `wrapC`  = `wrap` (printer.go:160): empty if the middle is empty;
-* `blockC` = `block` (printer.go:168): `{}` for an empty slice, else `indent("{\n" + join(s, "\n")) + "\n}"`;
-* `indentC`= `indent` (printer.go:176): every `\n` becomes `\n` + two spaces (also inside descriptions!);
-* `quoteC` = `quoteString` (printer.go:128): `\" \\ \b \f \n \r \t`, `\u00XX` for other bytes < 0x20 and 0x7f,
+* `joinC`  = `join` (printer.go:153): drops empty strings, then `strings.Join`;
+* `wrapC`  = `wrap` (printer.go:199): empty if the middle is empty;
+* `blockC` = `block` (printer.go:207): `{}` for an empty slice, else `indent("{\n" + join(s, "\n")) + "\n}"`;
+* `indentC`= `indent` (printer.go:215): every `\n` becomes `\n` + two spaces (also inside descriptions!);
+* `quoteC` = `quoteString` (printer.go:167): `\" \\ \b \f \n \r \t`, `\u00XX` for other bytes < 0x20 and 0x7f,
   everything else raw.  Go works on bytes, the model on `Char`s; the two agree on valid UTF-8 because every byte
   of a multi-byte sequence is ≥ 0x80 and is copied unchanged by either (byte-level statement: `Props/C08.lean`,
   `quote_unquote`);
